@@ -66,7 +66,63 @@ def execute_plan(prop, plan: dict) -> dict:
     return result
 
 
+def in_child(func, *args):
+    """Run func(*args) in a forked child (pristine copy of this process) and
+    return ("ok", result) | ("exc", text) | ("crashed", wait status)."""
+    import pickle
+
+    rfd, wfd = os.pipe()
+    child = os.fork()
+    if child == 0:
+        code = 0
+        try:
+            os.close(rfd)
+            try:
+                data = pickle.dumps(("ok", func(*args)))
+            except BaseException as exc:  # noqa: BLE001
+                data = pickle.dumps(("exc", f"{type(exc).__name__}: {exc}\n{traceback.format_exc()}"))
+            with os.fdopen(wfd, "wb") as dst:
+                dst.write(data)
+        except BaseException:  # noqa: BLE001
+            code = 3
+        finally:
+            os._exit(code)
+    os.close(wfd)
+    with os.fdopen(rfd, "rb") as src:
+        data = src.read()
+    _, status = os.waitpid(child, 0)
+    if not data:
+        return ("crashed", status)
+    return pickle.loads(data)
+
+
+def isolated_execute(pid: str, plan: dict, prefix=None) -> Optional[dict]:
+    """Execute `prefix` plans and then `plan` in one pristine forked child."""
+
+    def job():
+        prop = load_prop(pid)
+        for pre in prefix or []:
+            execute_plan(prop, json.loads(json.dumps(pre, default=core._default)))
+        return execute_plan(prop, plan)
+
+    status, value = in_child(job)
+    if status != "ok":
+        return None
+    return value
+
+
 def _worker_chunk(args) -> list:
+    """One chunk = one pristine forked child: the history a run can depend on
+    is exactly the runs of its own chunk that precede it."""
+    status, value = in_child(_chunk_body, args)
+    if status == "ok":
+        return value
+    if status == "exc":
+        return [{"index": args[3][0], "harness_error": value}]
+    return [{"index": args[3][0], "harness_error": f"chunk child died (wait status {value})"}]
+
+
+def _chunk_body(args) -> list:
     pid, verif_seed, tier, indices = args
     prop = load_prop(pid)
     out = []
@@ -93,6 +149,7 @@ def _worker_chunk(args) -> list:
             "sigs": [core.H(s) for s in result["sigs"]],
             "nsteps": len(plan.get("steps", [])),
         }
+        item["chunk_start"] = indices[0]
         if result["violations"] or index < 3:
             item["plan"] = plan
         out.append(item)
@@ -135,10 +192,9 @@ def match_known(pid: str, rec: dict, known: dict) -> Optional[dict]:
 # minimisation
 
 
-def _still_fails(prop, plan: dict, target: tuple) -> Optional[dict]:
-    try:
-        result = execute_plan(prop, plan)
-    except Exception:
+def _still_fails(prop, plan: dict, target: tuple, prefix=None) -> Optional[dict]:
+    result = isolated_execute(prop.ID, plan, prefix)
+    if result is None:
         return None
     for rec in result["violations"]:
         if core.vclass(rec) == target:
@@ -146,8 +202,10 @@ def _still_fails(prop, plan: dict, target: tuple) -> Optional[dict]:
     return None
 
 
-def minimise(pid: str, plan: dict, target: tuple, budget_s: float = 60.0) -> dict:
-    """ddmin over the step list, then property-specific simplifications."""
+def minimise(pid: str, plan: dict, target: tuple, budget_s: float = 60.0, prefix=None) -> dict:
+    """ddmin over the step list, then property-specific simplifications.
+    Every candidate runs in its own pristine child, so an accepted candidate
+    fails on its own (plus `prefix`), not thanks to state left by an earlier one."""
     prop = load_prop(pid)
     t_end = time.time() + budget_s
     best = plan
@@ -156,7 +214,7 @@ def minimise(pid: str, plan: dict, target: tuple, budget_s: float = 60.0) -> dic
     def attempt(candidate: dict) -> bool:
         nonlocal best, tries
         tries += 1
-        if _still_fails(prop, candidate, target) is not None:
+        if _still_fails(prop, candidate, target, prefix) is not None:
             best = candidate
             return True
         return False
@@ -203,9 +261,6 @@ def minimise(pid: str, plan: dict, target: tuple, budget_s: float = 60.0) -> dic
     return best
 
 
-def _minimise_entry(args):
-    pid, plan, target, budget = args
-    return minimise(pid, plan, tuple(tuple(x) if isinstance(x, list) else x for x in target), budget)
 
 
 # --------------------------------------------------------------------------
@@ -224,13 +279,13 @@ def repo_state() -> dict:
     return {"head": git("rev-parse", "--short", "HEAD").strip(), "diff_sha": hashlib.sha256(git("diff").encode()).hexdigest()[:16]}
 
 
-def write_replay(pid: str, plan: dict, rec: dict, dig: str, tier: str) -> str:
+def write_replay(pid: str, plan: dict, rec: dict, dig: str, tier: str, prefix=None) -> str:
     os.makedirs(os.path.join(VERIF, "replays"), exist_ok=True)
     tag = "%08x" % (core.H(*core.vclass(rec)) & 0xFFFFFFFF)
     path = os.path.join(VERIF, "replays", f"{pid}-{plan.get('run_seed', 0)}-{tag}.json")
     doc = {"format": 1, "property": pid, "run_seed": plan.get("run_seed"), "tier": tier, "plan": plan,
            "violation": rec, "digest": dig, "repo": repo_state(),
-           "hashseed": os.environ.get("PYTHONHASHSEED", "")}
+           "hashseed": os.environ.get("PYTHONHASHSEED", ""), "prefix": prefix or []}
     with open(path, "w") as dst:
         json.dump(doc, dst, indent=1, sort_keys=True, default=core._default)
     return path
@@ -244,6 +299,8 @@ def replay(pid: str, path: str) -> int:
         return 2
     prop = load_prop(pid)
     prepare(prop)
+    for pre in doc.get("prefix", []):  # history-dependent violation: earlier runs of the same process
+        execute_plan(prop, pre)
     result = execute_plan(prop, doc["plan"])
     print(f"REPLAY-DIGEST {result['digest']}")
     want = core.vclass(doc["violation"]) if doc.get("violation") else None
@@ -336,7 +393,7 @@ def run_batch(pid: str, tier: str, verif_seed: int, runs: Optional[int], workers
     prepare(prop)
     known = load_known()
     nruns = runs if runs is not None else prop.budget(tier)
-    chunk = max(1, min(25, nruns // (workers * 4) or 1))
+    chunk = getattr(prop, "CHUNK", 20)  # fixed: the history of a run must not depend on the worker count
     tasks = [(pid, verif_seed, tier, list(range(s, min(s + chunk, nruns)))) for s in range(0, nruns, chunk)]
 
     stats: collections.Counter = collections.Counter()
@@ -397,7 +454,7 @@ def run_batch(pid: str, tier: str, verif_seed: int, runs: Optional[int], workers
             cur = unknown.get(key)
             size = len(json.dumps(item["plan"], default=core._default))
             if cur is None or size < cur["size"]:
-                unknown[key] = {"plan": item["plan"], "rec": rec, "size": size, "index": item["index"]}
+                unknown[key] = {"plan": item["plan"], "rec": rec, "size": size, "index": item["index"], "chunk_start": item["chunk_start"]}
 
     for what, count in sorted(known_hits.items()):
         print(f"KNOWN-FINDING: property={pid} {what} (seen {count}x)", flush=True)
@@ -408,23 +465,43 @@ def run_batch(pid: str, tier: str, verif_seed: int, runs: Optional[int], workers
         limit = 4
         for key, info in sorted(unknown.items(), key=lambda kv: kv[1]["size"])[:limit]:
             plan = info["plan"]
+            prefix: List[dict] = []
+            budget_s = 45.0 if tier == "quick" else 180.0
+            alone = _still_fails(prop, plan, key)
+            if alone is None:
+                # not reproducible on its own: does it depend on the runs that preceded it in its chunk?
+                prefix = [prop.generate(core.run_seed(verif_seed, pid, i), tier, i) for i in range(info["chunk_start"], info["index"])]
+                if not prefix or _still_fails(prop, plan, key, prefix) is None:
+                    print(f"HARNESS-ERROR violation {key[0]}@{key[1]} of run index {info['index']} does not reproduce in a pristine process, neither alone nor after the {len(prefix)} preceding runs of its chunk", flush=True)
+                    return 2
+                # shrink the history greedily
+                t_end = time.time() + budget_s
+                i = 0
+                while i < len(prefix) and time.time() < t_end:
+                    cand = prefix[:i] + prefix[i + 1:]
+                    if _still_fails(prop, plan, key, cand) is not None:
+                        prefix = cand
+                    else:
+                        i += 1
             if not no_min:
                 try:
-                    with cf.ProcessPoolExecutor(max_workers=1, mp_context=ctx) as pool:
-                        plan = pool.submit(_minimise_entry, (pid, plan, key, 45.0 if tier == "quick" else 180.0)).result(timeout=600)
+                    plan = minimise(pid, plan, key, budget_s, prefix or None)
                 except Exception as exc:  # keep the unminimised plan
                     print(f"note: minimiser failed ({type(exc).__name__}: {exc}); reporting the original plan", flush=True)
-            result = execute_plan(prop, plan)
+            result = isolated_execute(pid, plan, prefix or None)
+            if result is None:
+                print("HARNESS-ERROR final execution of the minimised plan crashed", flush=True)
+                return 2
             rec = next((r for r in result["violations"] if core.vclass(r) == key), info["rec"])
-            path = write_replay(pid, plan, rec, result["digest"], tier)
-            # fresh-interpreter confirmation under another hash seed
+            path = write_replay(pid, plan, rec, result["digest"], tier, prefix)
+            # confirmation in a fresh interpreter
             env = {k: v for k, v in os.environ.items() if k not in ("PYTHONHASHSEED", "VERIF_NO_REEXEC")}
             proc = subprocess.run([sys.executable, os.path.join(VERIF, "check"), pid, "--replay", path], capture_output=True, text=True, env=env, timeout=900)
             ok = proc.returncode == 1 and f"REPLAY-DIGEST {result['digest']}" in proc.stdout
             if not ok:
                 print(f"HARNESS-ERROR replay of {path} did not reproduce in a fresh interpreter (rc={proc.returncode})\n{proc.stdout[-800:]}\n{proc.stderr[-800:]}", flush=True)
                 return 2
-            print(f"violation: {json.dumps(rec, sort_keys=True, default=core._default)}", flush=True)
+            print(f"violation: {json.dumps(rec, sort_keys=True, default=core._default)}" + (f" [history-dependent: needs {len(prefix)} earlier run(s) in the same process]" if prefix else ""), flush=True)
             print(f"VIOLATION property={pid} replay={path}", flush=True)
             reported.append(path)
             exit_code = 1
